@@ -484,6 +484,23 @@ def run_case(case, ctx):
         orig = node.pop(target)
         default_variant("missing-key", fr, target, kind, arg, tname, orig, m2, KeyError, in_block)
 
+    # H: one needed value is missing but has a default, and the same context holds one surplus value: the default makes
+    # the serialisation possible, the surplus value must still be reported (as many defaulted as stray values)
+    cands = [(f, p) for f in frames for p in f.prims if p[3] is None]
+    if cands and vr.random() < 0.35:
+        deep = [c for c in cands if c[0].path]
+        fr, p = vr.choice(deep) if deep and vr.random() < 0.8 else vr.choice(cands)
+        target, kind, arg, _, in_block, tname = p
+        m2 = SP.clone(model)
+        node = SP.node_at(m2, fr.path)
+        orig = node.pop(target)
+        node[vr.choice(["zz_extra", "zz_open", "_zz_extra"])] = vr.choice([1, 0, None, b"x"])
+        right = cur_type(fr, tname)
+        dv = decoys(right, target, kind, arg, orig)
+        dv[right] = {target: SP.build_context(orig, ba=R.bitarray)}
+        run = do_ser(R, prog["ops"], m2, types, pretype, dv, False, explicit, build_types)
+        expect_error(run, E.UnusedTargetError, "extra-key-with-default", where_of(fr.path))
+
     # D: missing last list element
     cands = []
     for f in frames:
@@ -576,7 +593,7 @@ def run_case(case, ctx):
 
 # ------------------------------------------------------------- floor / evidence
 NEG_VARIANTS = [
-    "extra-key",
+    "extra-key", "extra-key-with-default",
     "extra-list-element",
     "missing-key",
     "missing-key-default-for-other-type",
